@@ -651,3 +651,119 @@ Proof.
     intros nb Hnb. apply in_map_iff in Hnb. destruct Hnb as [d [<- Hd']]. cbn [snd].
     apply batch_consistent_b_ok. rewrite forallb_forall in HC. apply HC. exact Hd'.
 Qed.
+
+(* ------------------------------------------------------------------------------------------ ACL records landing during a call *)
+(* Knowing MORE records never invalidates an authorisation: auth_ok is monotone in the number of records held. *)
+Lemma firstn_In_mono : forall (n n' : nat) (ids : list rid) r, (n <= n')%nat -> In r (firstn n ids) -> In r (firstn n' ids).
+Proof.
+  induction n as [|n IH]; intros n' ids r Hle Hin; [destruct ids; cbn in Hin; contradiction|].
+  destruct n' as [|n']; [lia|]. destruct ids as [|x ids]; [cbn in Hin; contradiction|].
+  cbn in *. destruct Hin as [E|Hin]; [left; exact E|right]. apply (IH n'); [lia|exact Hin].
+Qed.
+
+Lemma has_head_firstn_mono : forall (n n' : nat) ids r, (n <= n')%nat ->
+  has_head (firstn n ids) r = true -> has_head (firstn n' ids) r = true.
+Proof.
+  unfold has_head. intros n n' ids r Hle H. apply memN_In. apply memN_In in H.
+  eapply firstn_In_mono; eauto.
+Qed.
+
+Lemma auth_ok_mono : forall ids sts (n n' : nat) root derived known c, (n <= n')%nat ->
+  auth_ok ids sts n root derived known c = true -> auth_ok ids sts n' root derived known c = true.
+Proof.
+  intros ids sts n n' root derived known c Hle H. unfold auth_ok in *.
+  apply andb_true_iff in H. destruct H as [H0 H]. rewrite H0. cbn [andb].
+  apply orb_true_iff in H. apply orb_true_iff. destruct H as [H|H]; [left; exact H|right].
+  repeat rewrite andb_true_iff in H. destruct H as [[[Hs Hh] Ht] Hp].
+  rewrite Hs, Ht, (has_head_firstn_mono _ _ _ _ Hle Hh). cbn [andb].
+  apply orb_true_iff in Hp. apply orb_true_iff. destruct Hp as [Hp|Hp]; [left; exact Hp|right].
+  rewrite forallb_forall in *. intros pid Hpid. specialize (Hp pid Hpid).
+  destruct (find_rc known pid) as [pc|]; [|discriminate].
+  apply orb_true_iff in Hp. apply orb_true_iff. destruct Hp as [Hp|Hp]; [left; exact Hp|right].
+  apply andb_true_iff in Hp. destruct Hp as [Ha Hb]. rewrite Hb, (has_head_firstn_mono _ _ _ _ Hle Ha). reflexivity.
+Qed.
+
+(* ds' = ds with some deliveries relabelled with a LARGER number of held records *)
+Inductive dels_le : list delivery -> list delivery -> Prop :=
+| dels_le_nil : dels_le [] []
+| dels_le_cons : forall d n' r r', (d_acl_len d <= n')%nat -> dels_le r r' -> dels_le (d :: r) (set_len d n' :: r').
+
+Lemma spec_dels_mono : forall ids sts root derived ds ds', dels_le ds ds' ->
+  forall known heads iter stored,
+  spec_dels ids sts root derived known heads iter stored ds = true ->
+  spec_dels ids sts root derived known heads iter stored ds' = true.
+Proof.
+  intros ids sts root derived ds ds' HL. induction HL as [|d n' r r' Hle HL IH]; intros known heads iter stored H; [exact H|].
+  cbn [spec_dels] in *. cbn [set_len d_ok d_iter d_stored d_added d_batch d_acl_len d_heads d_has].
+  destruct (d_ok d).
+  - repeat rewrite andb_true_iff in H. destruct H as [[[[[H1 H2] H3] H4] H5] H6].
+    rewrite H1, H2, H3, H4. cbn [andb]. apply andb_true_iff. split; [|apply IH; exact H6].
+    rewrite forallb_forall in *. intros i Hi. specialize (H5 i Hi).
+    rewrite forallb_forall in *. intros c Hc. eapply auth_ok_mono; [exact Hle|]. apply H5. exact Hc.
+  - repeat rewrite andb_true_iff in H. destruct H as [[[[H1 H2] H3] H4] H5].
+    rewrite H1, H2, H3, H4. cbn [andb]. apply IH. exact H5.
+Qed.
+
+Lemma spec_C02_mono : forall sc ds', dels_le (sc_dels sc) ds' -> spec_C02 sc = true -> spec_C02 (with_dels sc ds') = true.
+Proof.
+  intros sc ds' HL H. unfold spec_C02 in *.
+  cbn [with_dels sc_me sc_owner sc_aclroot sc_recs sc_built sc_root_len sc_root sc_derived sc_heads0 sc_iter0 sc_stored0 sc_dels].
+  destruct (acl_states (sc_me sc) (sc_owner sc) (sc_aclroot sc) (sc_recs sc)) as [sts|]; [|discriminate].
+  destruct (sc_built sc).
+  - apply andb_true_iff in H. destruct H as [H1 H2]. rewrite H1. cbn [andb].
+    eapply spec_dels_mono; [exact HL|exact H2].
+  - destruct (sc_dels sc) as [|d r]; [|discriminate]. inversion HL. reflexivity.
+Qed.
+
+(* the model's deliveries are labelled with the length the chosen serial order presents; the length at return is not smaller *)
+Lemma model_dels_race_le : forall ids sts ds t mid ch,
+  dels_le (model_dels ids sts t (race_ins ds mid ch))
+          (at_return (enter_lens (model_dels ids sts t (race_ins ds mid ch)) ds) mid).
+Proof.
+  intros ids sts ds. induction ds as [|d r IH]; intros t mid ch; [constructor|].
+  cbn [race_ins model_dels].
+  set (n := (if hd false ch then (d_acl_len d + hd O mid)%nat else d_acl_len d)).
+  destruct (view_at ids sts n) as [a|]; [|constructor].
+  destruct (accept a t (d_batch d)) as [t' res].
+  cbn [enter_lens at_return set_len d_acl_len d_batch d_ok d_eclass d_added d_heads d_iter d_stored d_has].
+  match goal with |- dels_le (?m :: _) _ =>
+    change (dels_le (m :: model_dels ids sts t' (race_ins r (tl mid) (tl ch)))
+                    (set_len m (d_acl_len d + hd O mid) ::
+                     at_return (enter_lens (model_dels ids sts t' (race_ins r (tl mid) (tl ch))) r) (tl mid))) end.
+  constructor; [|apply IH].
+  cbn [d_acl_len]. subst n. destruct (hd false ch); lia.
+Qed.
+
+Lemma race_ins_blank : forall ins : list (nat * list rawchange),
+  map (fun d => (d_acl_len d, d_batch d)) (map blank_del ins) = ins.
+Proof. induction ins as [|[n b] r IH]; cbn; [reflexivity|]. f_equal. exact IH. Qed.
+
+Lemma race_ins_batches : forall (f : list rawchange -> bool) ds mid ch,
+  forallb (fun d => f (d_batch d)) (map blank_del (race_ins ds mid ch)) = forallb (fun d => f (d_batch d)) ds.
+Proof. intros f ds. induction ds as [|d r IH]; intros mid ch; cbn; [reflexivity|]. f_equal. apply IH. Qed.
+
+(* the side condition: that of scenario_wf, on the INPUTS of the race scenario *)
+Definition race_wf (rs : racescen) : bool := scenario_wf (rs_sc rs).
+
+(* whatever serial order is chosen for every call (ch), the race model satisfies spec_race *)
+Theorem race_model_satisfies_spec : forall ch rs, race_wf rs = true -> spec_race (model_race ch rs) = true.
+Proof.
+  intros ch [sc mid] H. unfold race_wf in H. cbn [rs_sc] in H.
+  unfold spec_race, model_race. cbn [rs_sc rs_mid].
+  set (sc' := with_dels sc (map blank_del (race_ins (sc_dels sc) mid ch))).
+  assert (W : scenario_wf sc' = true).
+  { unfold scenario_wf in *. subst sc'.
+    cbn [with_dels sc_me sc_owner sc_aclroot sc_recs sc_dels]. rewrite race_ins_batches. exact H. }
+  pose proof (model_satisfies_spec sc' W) as S.
+  set (m := model_scenario sc') in *.
+  assert (L : dels_le (sc_dels m) (at_return (enter_lens (sc_dels m) (sc_dels sc)) mid)).
+  { subst m. unfold model_scenario.
+    destruct (acl_states (sc_me sc') (sc_owner sc') (sc_aclroot sc') (sc_recs sc')) as [sts|]; [|constructor].
+    destruct (view_at (acl_ids (sc_aclroot sc') (sc_recs sc')) sts (sc_root_len sc')) as [a|]; [|constructor].
+    destruct (build a (sc_root sc') (sc_derived sc')) as [t0|]; [|constructor].
+    cbn [sc_dels]. subst sc'. cbn [with_dels sc_dels]. rewrite race_ins_blank. apply model_dels_race_le. }
+  pose proof (spec_C02_mono m _ L S) as R.
+  unfold with_dels in *. cbn [sc_me sc_owner sc_aclroot sc_recs sc_hists sc_root sc_derived sc_root_len sc_built
+                               sc_heads0 sc_iter0 sc_stored0 sc_dels]. exact R.
+Qed.
+
